@@ -228,11 +228,13 @@ def run(ctx):
         return
     ctx.log("harness done: %d distinct function CFGs" % len(terms))
     judged = {}
+    judge_failed = None
     try:
         judge_terms(ctx, terms, judged)
     except RuntimeError as e:
-        ctx.violation("model-eval", {"log": str(e)[-3000:]}, "C04 judge could not be evaluated on exported CFGs", no_input=True)
-        return
+        # keep going with the implementation's own verdicts (panics, verifier errors): they may still give a failing
+        # input; the missing proved-checker verdicts are reported at the end
+        judge_failed = str(e)[-3000:]
     hist = collections.Counter(CODES.get(c, c) for c in judged.values())
     ctx.log("judged: %s" % dict(hist))
 
@@ -319,8 +321,10 @@ def run(ctx):
                             "correspondence": "verify() vs check_fn on the structural/dominance subset"},
                       "verify() rejects (%s) what check_fn accepts after %s: the proved checker no longer covers the verifier's structural subset" % (cls, name),
                       no_input=True)
+    if judge_failed:
+        ctx.violation("model-eval", {"log": judge_failed}, "C04 judge could not be evaluated on exported CFGs (the implementation-only verdicts found no further failing input)", no_input=True)
     nrej = agree["both-reject"]
-    if nrej < 50:
+    if nrej < 50 and not judge_failed:
         ctx.violation("malformed-stream-empty", {"agree": dict(agree)}, "malformed stream produced too few rejected cases to compare the verifiers", no_input=True)
 
     valid_states = sum(len(c.steps) for c in cases[:n_valid])
